@@ -190,6 +190,11 @@ fn cand_move(ctx: &mut Ctx, case: &str, b: &Board, snap: &Full, mp: &MPos, legal
     let text = lm.to_string();
     apply_all(ctx, case, &format!("Uci:{}", text), b, snap, mp, legal, &e_uci, &|| make::Uci(text.clone()));
     cand_list(ctx, case, b, snap, mp, legal, &text, &e_uci);
+    // coordinate-form text handed to the SAN entry point: whatever is accepted must be legal
+    apply_all(ctx, case, &format!("San:{}", text), b, snap, mp, legal, &Expect::Sound, &|| make::San(text.clone()));
+    if let Ok(sm) = text.parse::<owlchess::moves::san::Move>() {
+        apply_all(ctx, case, &format!("san::Move:{}", text), b, snap, mp, legal, &Expect::Sound, &|| sm);
+    }
 }
 
 pub fn check_pos(ctx: &mut Ctx, mp: &MPos, b: &Board) {
